@@ -30,7 +30,7 @@ var c06Gov = map[string][]int{
 	"tcbinfo-doc": {world.TTcbInfo}, "tcbinfo-signer": {world.TTcbInfo}, "tcbinfo-header-root": {world.TTcbInfo},
 	"qeidentity-doc": {world.TQeIdentity}, "qeidentity-signer": {world.TQeIdentity}, "qeidentity-header-root": {world.TQeIdentity},
 	"pckcrl": {world.TPckCrl}, "pckcrl-header-signer": {world.TPckCrl}, "pckcrl-header-root": {world.TPckCrl},
-	"rootcrl": {world.TRootCaCrl},
+	"rootcrl":       {world.TRootCaCrl},
 	"shared-signer": {world.TTcbInfo, world.TQeIdentity}, "shared-header-root": {world.TTcbInfo, world.TQeIdentity},
 }
 var c06Level = map[string]int{
